@@ -30,7 +30,7 @@ func c13Historical(c *Ctx) {
 		callersTable(c, "C13.R9", c.Method(childKeeper, "Keeper", "TrackHistoricalInfo"), []string{"(opchild.AppModule).BeginBlock"})
 
 		fn := c.Method(childKeeper, "Keeper", "TrackHistoricalInfo")
-		H := "(sdk.Context).BlockHeight(sdk.UnwrapSDKContext(ctx))"
+		H := "(sdk.Context).BlockHeight(ctx)"
 		E := "(collections.Item[V]).Get(k.Params, ctx).0.HistoricalEntries"
 		start := "(" + H + " - int64(" + E + "))"
 		keyAt := func(n int) string {
@@ -84,7 +84,7 @@ func c13Historical(c *Ctx) {
 					o.Fail(c.evPos(ev), "stored value is not NewHistoricalInfo(...): "+trunc(v.Key(), 120), c.Dump(p, i))
 					continue
 				}
-				if v.Args[0].Key() != "(sdk.Context).BlockHeader(sdk.UnwrapSDKContext(ctx))" {
+				if v.Args[0].Key() != "(sdk.Context).BlockHeader(ctx)" {
 					o.Fail(c.evPos(ev), "record header is "+trunc(v.Args[0].Key(), 100), c.Dump(p, i))
 				}
 				// every element of the validator list comes from GetLastValidators, field by field
